@@ -138,7 +138,15 @@ func (drap *draPlugin) assumePendingClaim(claim *schedulingv1alpha2.ResourceClai
 	}
 
 	if claimObject.Status.Allocation != nil {
-		return nil // Claim is already allocated, no need to assume
+		// Already allocated (a shared claim another consumer holds): nothing to allocate, but the pod of the
+		// in-flight bind request is a consumer as well. Without it in reservedFor, evicting the other consumers
+		// would deallocate the claim while this pod is being bound with its devices.
+		updatedClaim := claimObject.DeepCopy()
+		resources.UpsertReservedFor(updatedClaim, pod)
+		if len(updatedClaim.Status.ReservedFor) == len(claimObject.Status.ReservedFor) {
+			return nil
+		}
+		return drap.manager.ResourceClaims().AssumeClaimAfterAPICall(updatedClaim)
 	}
 
 	updatedClaim := claimObject.DeepCopy()
